@@ -36,7 +36,7 @@ type replayInput struct {
 // writeReplay writes the replay file for a group of failed obligations (same
 // function and label, different instantiations). Returns the path and whether
 // a failing input was confirmed on the real code.
-func writeReplay(s *Session, prop string, os_ []*Obligation) (string, bool) {
+func writeReplay(s *Session, prop string, os_ []*Obligation, doReplay bool) (string, bool) {
 	o := os_[0]
 	name := prop + "-" + sanitize(strings.ReplaceAll(o.Fn+"_"+labelOf(o.Name), ":", "_")) + ".json"
 	name = strings.NewReplacer("#", "_", "@", "_", "!", "_").Replace(name)
@@ -70,8 +70,11 @@ func writeReplay(s *Session, prop string, os_ []*Obligation) (string, bool) {
 			}
 		}()
 		// try the failing instantiations in order until one replays
+		if !doReplay {
+			rec["replay_skipped"] = "more than 12 failing clauses in this run: only the first 12 are replayed"
+		}
 		for i, x := range os_ {
-			if i >= 3 {
+			if i >= 2 || !doReplay {
 				break
 			}
 			ok, det := s.replayObligation(prop, x)
